@@ -10,6 +10,7 @@ Inductive input :=
 | Missing                      (* path does not exist *)
 | NotAFile                     (* directory *)
 | EmptyInput                   (* empty file / blank stdin *)
+| Undecodable                  (* readable bytes that are not UTF-8 text *)
 | Content (bytes : list nat).  (* readable, non-empty *)
 
 Inductive fmt := Json | Csv.
@@ -36,6 +37,7 @@ Section Plan.
   Definition plan_report (ch : channel) (inp : input) (f : fmt) (auto : nat) (eng : list nat -> engine) : result :=
     match inp with
     | Missing | NotAFile | EmptyInput => {| r_exit := E1; r_stdout := None; r_diag := true |}
+    | Undecodable => {| r_exit := E2; r_stdout := None; r_diag := true |}       (* "unexpected error" branch *)
     | Content bytes =>
         match eng bytes with
         | EngineFailed => {| r_exit := E2; r_stdout := None; r_diag := true |}
@@ -56,10 +58,17 @@ Inductive fsop := Create (name : nat) | Remove (name : nat).
 Definition trace (ch : channel) (inp : input) (engine_ok : bool) : list fsop :=
   match inp with
   | Missing | NotAFile | EmptyInput => []                       (* fails before anything is created *)
+  | Undecodable =>                                              (* stdin (read with the locale's surrogateescape
+                                                                   handler): writing the copy fails; file: the text
+                                                                   read fails after the output directory was made
+                                                                   and before the combined file is *)
+      match ch with FromStdin => [Create 0; Remove 0] | FromFile => [Create 2; Remove 2] end
   | Content _ =>
       let pre := match ch with FromStdin => [Create 0] | FromFile => [] end in
       let post := match ch with FromStdin => [Remove 0] | FromFile => [] end in
-      pre ++ [Create 2; Create 1] ++ (if engine_ok then [Remove 2; Remove 1] else [Remove 1; Remove 2]) ++ post
+      (* success: output directory, combined file, stdin copy; failure (except-branches): combined file, stdin copy,
+         output directory - the order the system calls show (harness: strace) *)
+      pre ++ [Create 2; Create 1] ++ (if engine_ok then [Remove 2; Remove 1] ++ post else [Remove 1] ++ post ++ [Remove 2])
   end.
 
 Fixpoint apply_ops (ops : list fsop) (fs : list nat) : list nat :=
